@@ -66,7 +66,7 @@ def _is_super_name(node):
 
 @rule(
     "R08a",
-    ["C08", "C19", "C17"],
+    ["C08", "C19", "C17", "C01", "C06", "C11"],
     """NAME COVERS ALL OPERANDS: every _name definition returns, on every path, a string containing
     _tokenize_deterministic(*self.operands) (full splat) or super()._name. ReadParquet may drop exactly its last
     operand, which must be _dataset_info_cache in every reader class, and must add the dataset checksum and the class.""",
